@@ -69,6 +69,14 @@ CHECKS = {
    technique=TECH + "long simulated time (quick 2*10^6, thorough 10^7 and 3*10^7 ticks per method) on regime streams with faults far in the past; definitional oracle re-established at late checkpoints by a reference model primed with the last window and told the true history (t, M), allowance linear in t; late-joining fresh real replica primed with the last window must agree with the long-running instance; range monitors at every late step for the ratio indicators named in the anchors",
    text="31 finite-window/detector methods, 13 recursive methods (free-running recurrence at every step), 10 finite-window indicators (late join) and CMO/MFI/RSI/Parabolic SAR (range monitors at every step). Checkpoints: first 2000 steps, multiples of 2^8 (first 64) and 2^16, PeriodType::MAX +-1, 60/300 seeded late positions, end of run.",
    note="Replay files carry feed seed + length (sequential generator) instead of 10^7 explicit values. Ratio-of-running-sums indicators are not compared with a fresh replica near their singular points (both sides divide residue there): see DESIGN.md Corrections."),
+ "C05": dict(level="exploration", design="§4 C05, §3.5, App. B",
+   technique=TECH + "seeded valid-candle fault feeds (flats, gaps, zero-volume bars, spikes, scale jumps) through all 36 real indicators with seeded valid configurations (every MA kind, boundary periods); per-step refinement of the raw values against reference indicators composed from the tracked-number reference methods (reduced fit: no schedule exists in this property)",
+   text="All 36 shipped indicators have a reference model (suts_covered in the evidence); values compared two-sided within the tracked allowance; undefined quotients exempt and counted (about 4%). Samples configurations and streams.",
+   note="Reference indicators written by one person from doc comments + linked definitions (DESIGN.md App. B): N-version evidence. Where the crate's own doc gives no formula and the linked page differs (MFI uses volume instead of typical price*volume, RVI uses close-to-close changes) the implemented formula was taken as the documented one; documented-layout deviations are known findings."),
+ "C06": dict(level="exploration", design="§4 C06, §3.4",
+   technique=TECH + "same runs as C05; every signal slot compared with the documented rule evaluated in three-valued logic over the tracked reference values (crossings, band touches, reversal points, trend flips, peak counters, proportional strengths through the same Action::from quantisation); Unknown verdicts and tainted latches are exempt and counted",
+   text="All signal slots of all 36 indicators; True/False verdicts must match exactly. About 10% of the slots are exempt (deciding quantity inside its own rounding allowance or a latch tainted by such a step); per-indicator exempt ratios are in the evidence.",
+   note="Same trusted base as C05. Known findings: KeltnerChannel signal sign, TrendStrengthIndex signal #2."),
 }
 NA = {
  "C16": "Action algebra is a total, stateless algebra over a finite domain: no history, state, fault, replica or schedule for a simulator to drive; the fitting technique (exhaustive enumeration) is model checking, which this task excludes (DESIGN.md §5).",
